@@ -55,6 +55,58 @@ func checkC07(ctx *Ctx, r *Report, tier string) {
 	} else if !r.controlSkipped() {
 		r.undecided("Q3", "control", 0, "positive control missing")
 	}
+	// Q5: the distance cache is keyed by the lattice point itself. A derived key (a packed word,
+	// a hash) that is not injective over every lattice the renderer can build makes one point
+	// read the distance cached for another: leaves are pruned or kept on the wrong evidence.
+	for _, c := range []struct {
+		recv string
+		dim  int
+	}{{"dcache3", 3}, {"dcache2", 2}} {
+		fn := ctx.ssaFunc("render", "(*"+c.recv+").evaluate")
+		key := c.recv + "|cache-keyed-by-the-lattice-point"
+		if fn == nil {
+			r.undecided("Q5", key, 0, "evaluate method not found")
+			continue
+		}
+		ev := newEval(ctx)
+		ev.evalRoot(fn)
+		vi := fn.Params[1].Name()
+		want := "{"
+		for i, ax := range []string{"X", "Y", "Z"}[:c.dim] {
+			if i > 0 {
+				want += " "
+			}
+			want += vi + "." + ax
+		}
+		want += "}"
+		nl, nu := 0, 0
+		ok := true
+		detail := ""
+		for _, e := range ev.Events {
+			if e.Callee != "maplookup" && e.Callee != "mapupdate" {
+				continue
+			}
+			if e.Callee == "maplookup" {
+				nl++
+			} else {
+				nu++
+			}
+			kv := e.Args[1]
+			if sy, isSym := kv.(*Sym); isSym {
+				kv = materialise(sy)
+			}
+			if k := valKey(kv); k != want {
+				ok = false
+				detail += fmt.Sprintf(" %s with key %s;", e.Callee, shortKey(k, 120))
+			}
+		}
+		if nl == 0 || nu == 0 {
+			ok = false
+			detail += fmt.Sprintf(" %d lookups, %d updates found;", nl, nu)
+		}
+		r.check("Q5", key, fn.Pos(), ok, "every cache lookup and update uses the lattice vector "+want+" itself as the key;"+detail)
+	}
+	r.floor("Q5", 2)
 	r.floor("Q1", 2*3)
 	r.floor("Q2", 2)
 	r.floor("Q3", 2*4)
